@@ -50,6 +50,7 @@
 From Coq Require Import PrimFloat.
 From Coq Require Import ZArith List Bool Reals Lra Permutation Sorted.
 From BZ Require Import Base.Ops Gen.Utils Gen.Point Gen.BBox Gen.Line Gen.Quad Gen.Cubic Hand.Bounds Hand.Split Proofs.C02 Proofs.C03 Proofs.C03band.
+From BZ Require Gen.Sample Gen.Split Proofs.Bridge3.
 Import ListNotations.
 Open Scope R_scope.
 
@@ -167,6 +168,14 @@ Proof. exact band_arch_pieces_monotone. Qed.
 Theorem C03_band_arch_path :
   let segs := [SCubic band_arch; SLine (L2 (P (2/10000000000) 0) (P 0 0))] in NoDup segs /\ ~ (forall s, In s segs -> genuine_seg s) /\ exists out, addExtremes ROps segs = Ok out /\ forall p, In p out -> exists s, In s segs /\ piece_mono s p.
 Proof. exact band_arch_path. Qed.
+(* the split walk of the hand model IS the one regenerated from BezierPath.splitAtPoints / addExtremes (value-keyed dict idioms, sorted, pop(0), the
+   re-mapping; Proofs/Bridge3.v): whenever the hand model returns Ok the regenerated function returns the same list, given fuel > number of requests *)
+Theorem C03_splitAtPoints_is_generated :
+  forall (T : Type) (O : Ops T) (fuel : nat) (segs : list (segment T)) (sl : list (segment T * T)) (r : list (segment T)), splitAtPoints O segs sl = Ok r -> (length sl < fuel)%nat -> Gen.Split.Path_splitAtPoints O fuel segs sl = Some r.
+Proof. exact @Bridge3.splitAtPoints_gen. Qed.
+Theorem C03_addExtremes_is_generated :
+  forall (T : Type) (O : Ops T) (fuel : nat) (segs r : list (segment T)), addExtremes O segs = Ok r -> (length (extremes_splitlist O segs) < fuel)%nat -> Gen.Split.Path_addExtremes O fuel segs = Some r.
+Proof. exact @Bridge3.addExtremes_gen. Qed.
 
 Print Assumptions C03_quad_findExtremes_exact.
 Print Assumptions C03_cubic_findExtremes_exact.
@@ -206,3 +215,5 @@ Print Assumptions C03_addExtremes_monotone_pieces_total.
 Print Assumptions C03_band_arch_not_genuine.
 Print Assumptions C03_band_arch_pieces_monotone.
 Print Assumptions C03_band_arch_path.
+Print Assumptions C03_splitAtPoints_is_generated.
+Print Assumptions C03_addExtremes_is_generated.
